@@ -332,7 +332,7 @@ def wl_incoherent(ctx, idx, rng):
 
 def workloads(ctx):
     q = ctx.tier == "quick"
-    return [("delays", 500 if q else 20000, wl_delays), ("incoherent", 1500 if q else 60000, wl_incoherent)]
+    return [("delays", 1500 if q else 20000, wl_delays), ("incoherent", 6000 if q else 60000, wl_incoherent)]
 
 
 def setup(ctx):
